@@ -1,4 +1,5 @@
 import SpecVerif.Wire.Walk
+import SpecVerif.Wire.IEEE
 namespace Drivers
 open SpecVerif
 
@@ -19,7 +20,11 @@ def parseHexAux : List Char → Bytes → Option Bytes
 def parseHex (s : String) : Option Bytes :=
   if s = "-" then some [] else parseHexAux s.toList []
 
-/-- the platform's IEEE operations (trusted base, compared with Go's on every run) -/
+/-- the float operations the decoders run with: the bit-level IEEE model the laws are proved for
+(Wire/IEEE.lean); every float decode of the streams compares it with Go's conversions -/
+def modelFloat : FloatOps := SpecVerif.IEEE.ieee
+
+/-- the platform's own conversions, used only to cross-check `modelFloat` (`fcheck` lines) -/
 def nativeFloat : FloatOps where
   widen x := (Float32.ofBits x.toUInt32).toFloat.toBits.toNat
   narrow x := (Float.ofBits x.toUInt64).toFloat32.toBits.toNat
